@@ -113,6 +113,15 @@ Fixpoint rename_frag (m : list (name * name)) (f : frag) : frag :=
   | Frag pre doms used subs => Frag (map (rn m) pre) (map (rn m) doms) (map (rn m) used) (map (rename_frag m) subs)
   end.
 
+(* Key order of Fragment.statements for one Module: Module._statements is a dict filled with
+   `setdefault(domain, [])` as statements are added — a plain `m.d.<domain> +=` at once, an If / Switch / FSM
+   block when it is closed, once per domain in the order the domains first occur inside the block
+   (Module._pop_ctrl collects them in a dict "to ensure deterministic iteration").  `seq` = that sequence of
+   domains; `maps` = the DomainRenamer maps applied to the module, innermost first (map_statements re-inserts the
+   statements under the renamed keys in order). *)
+Definition stmt_keys (maps : list (list (name * name))) (seq : list name) : list name :=
+  fold_left (fun a d => set_add d a) (fold_left (fun sq m => map (rn m) sq) maps seq) [].
+
 (* Order in which the IO ports of a design are first met (Design._collect_used_signals walks a fragment's
    subfragments in order; Module.elaborate adds the NAMED submodules first, then the anonymous ones;
    Design._add_io_ports appends them to the ports in that order).  A design as a tree of submodules:
